@@ -46,7 +46,9 @@ class Family:
         for mech, e in self.run.findings.items():
             w = e.get("witness") or {}
             if w.get("kind", "differential") == "differential" and w.get("source"):
-                items.append(dict(name=f"witness:{mech}", text=w["source"], exports=[tuple(x) for x in w.get("exports", [])], _mech=mech))
+                subs = [(s[0], s[1], list(s[2]), s[3]) for s in w.get("subs", [])]
+                items.append(dict(name=f"witness:{mech}", text=w["source"], exports=[tuple(x) for x in w.get("exports", [])], _mech=mech, subs=subs,
+                                  c_subs={s[0]: {"return_type": s[1], "params": list(s[2]), "code": s[3]} for s in subs}))
         if not items:
             return
         progs, _ = self.compile(items)
@@ -223,7 +225,7 @@ class Family:
                         self.stats["known_finding_programs"] += 1
                         break
             if status == "violation":
-                mech = findings.signature(p.src, r)
+                mech = findings.signature(p.src, r, subs=[tuple(x) for x in p.extra.get("item", {}).get("subs", [])])
                 if mech and self.run.known(mech, {"source": p.src[:300], "differing_observables": sorted(r.diff_keys)}):
                     status = "known:" + mech
                     self.stats["known_finding_programs"] += 1
